@@ -6,6 +6,7 @@ import (
 	"encoding/json"
 	"errors"
 	"fmt"
+	"math"
 	"math/rand"
 	"os"
 	"runtime"
@@ -78,7 +79,9 @@ func materialise(q vreq) *pbsubstreamsrpc.Request {
 	}
 	for _, m := range q.Mods {
 		pm := &pbsubstreams.Module{Name: m.Name, BinaryIndex: m.Bin, BinaryEntrypoint: m.Name}
-		if m.Init < 0 {
+		if m.Init == -2 {
+			pm.InitialBlock = math.MaxUint64 // also manifest.UNSET, the unresolved-initial-block marker
+		} else if m.Init < 0 {
 			pm.InitialBlock = 1 << 63
 		} else {
 			pm.InitialBlock = uint64(m.Init)
